@@ -671,7 +671,7 @@ pub fn c12_check_root(root: &Root, h: &ZobristHasher, budget: u64, sample: bool,
 
 pub fn run_c18(tier: Tier, seed: u64) -> i32 {
     let mut run = Run::new("C18", tier, seed, "exploration");
-    run.rule = "evaluation = one info line. In-process: every line captured from the real search under the virtual clock, with the allowance expiring at enumerated clock-query indices k (C07's enumeration on a smaller root set, depth limits 1..5) so that the clock cuts the search at every kind of point; black box: every info line of timed go commands on the real binary, including info bursts (mate-in-one roots under slices of 1-4 ms: about a hundred lines within a millisecond or two while the I/O thread prints bestmove). Each line is checked against the strict grammar `info pv <moves> depth D nodes N score (cp X|mate Y) time T`, D >= 1 and non-decreasing within a search, Y != 0, |X| < 9 999 999 and <= 100 000, the value implied by mate Y within the mate range, first PV move legal at the root, strictly increasing score within one depth. Non-trivial = a run that produced at least one line with the expiry strictly inside the search; distinct by (root, D, k) or transcript".into();
+    run.rule = "evaluation = one info line. In-process: every line captured from the real search under the virtual clock, with the allowance expiring at enumerated clock-query indices k (C07's enumeration on a smaller root set, depth limits 1..5) so that the clock cuts the search at every kind of point; black box: every info line of timed go commands on the real binary, including info bursts (mate-in-one roots under slices of 1-4 ms: about a hundred lines within a millisecond or two while the I/O thread prints bestmove) and long searches (slices of 1.2-3 s on middle-game roots, where one iteration lasts hundreds of milliseconds and prints several lines). Each line is checked against the strict grammar `info pv <moves> depth D nodes N score (cp X|mate Y) time T`, D >= 1 and non-decreasing within a search, Y != 0, |X| < 9 999 999 and <= 100 000, the value implied by mate Y within the mate range, first PV move legal at the root, strictly increasing score within one depth. Non-trivial = a run that produced at least one line with the expiry strictly inside the search; distinct by (root, D, k) or transcript".into();
     run.assumptions = vec![
         "a leaked sentinel prints as 'score mate -4949999'; the implied-value bound catches it, and no correct line can trip it because mate is printed only within 15 of the mate score".into(),
         "first PV move is compared by from/to squares (PV tokens carry no promotion letter by design of the engine's output)".into(),
@@ -757,8 +757,11 @@ pub fn run_c18(tier: Tier, seed: u64) -> i32 {
     for a in results {
         run.acc.merge(a, &["deep_max_iteration_reached"]);
     }
+    let t0 = std::time::Instant::now();
     super::timed::c18_blackbox(&mut run);
+    let t1 = std::time::Instant::now();
     super::timed::burst_sessions(&mut run, "C18");
+    run.set("phase_seconds", json!({"blackbox": (t1 - t0).as_secs_f64(), "burst_sessions": t1.elapsed().as_secs_f64()}));
     run.floor_distinct = 200;
     run.finish()
 }
